@@ -18,14 +18,33 @@ func (ex *Exec) lookupNameC(p *Path, name string) (Value, bool) {
 	}
 	// locals and parameters of the function under verification, by name (latest declaration wins): current values
 	var best types.Object
+	own := func(o types.Object) bool {
+		// only variables of the unit under verification: a callee that was inlined leaves its locals behind in p.vars
+		if ex.localOrd == nil || ex.fi == nil || ex.fi.Decl == nil {
+			return true
+		}
+		if _, ok := ex.localOrd[o]; ok {
+			return true
+		}
+		return o.Pos() >= ex.fi.Decl.Pos() && o.Pos() <= ex.fi.Decl.End()
+	}
 	for o := range p.vars {
-		if o.Name() == name {
+		if o.Name() == name && own(o) {
 			if best == nil || o.Pos() > best.Pos() {
 				best = o
 			}
 		}
 	}
+	for o := range p.cells {
+		if o.Name() == name && own(o) && (best == nil || o.Pos() > best.Pos()) {
+			best = o
+		}
+	}
 	if best != nil {
+		if r, ok := p.cells[best]; ok {
+			// the local's address was taken: its current value is in its heap cell
+			return ex.heapRead(p, "deref:"+sortToken(ex.c.SortOf(best.Type())), best.Type(), r), true
+		}
 		return p.vars[best], true
 	}
 	if v, ok := p.entry[name]; ok {
